@@ -46,8 +46,6 @@ pub fn deref(p: Ptr) -> (s: Sl)
     ensures s.base == p.base, s.off == p.off, s.len == 1, s.stride == p.stride,
 { unimplemented!() }
 
-// rule R-panic: a function that may panic returns PanicOr
-pub enum PanicOr<R> { Panic, Ret(R) }
 pub struct LengthError;
 
 proof fn lemma_chunks(l: usize, n: usize)
